@@ -73,13 +73,28 @@ def unwrap_into_cases(rng, n):
         src, exp = pre, []
         for i, k in enumerate(ks):
             v = 'a%d' % i
-            form = rng.choice(['if', 'stmt', 'while'])
+            form = rng.choice(['if', 'stmt', 'while', 'nested-if', 'nested-while', 'elseif', 'fn-block'])
             if form == 'if':
                 src += "%s: int? = nil\nif %s ?= pos(%d) {\n  print %s\n} else {\n  print %s == nil\n}\n" % (v, v, k, v, v)
                 exp += [str(k)] if k > 0 else ["true"]
             elif form == 'stmt':
                 src += "%s: int? = 9\nt%d = %s ?= pos(%d)\nprint t%d\nprint (%s) or 100\n" % (v, i, v, k, i, v)
                 exp += ["true" if k > 0 else "false", str(k) if k > 0 else "100"]
+            elif form == 'nested-if':
+                # the target lives in an ENCLOSING block: `?=` stores into that variable, visible after the block
+                src += "%s: int? = nil\nif true {\n  if %s ?= pos(%d) {\n    print %s\n  }\n  print %s == nil\n}\nprint (%s) or 100\n" % (v, v, k, v, v, v)
+                exp += ([str(k), "false", str(k)] if k > 0 else ["true", "100"])
+            elif form == 'nested-while':
+                src += "%s: int? = 9\nw%d = 0\nwhile w%d < 1 {\n  w%d = w%d + 1\n  t%d = %s ?= pos(%d)\n  print t%d\n}\nprint (%s) or 100\n" % (v, i, i, i, i, i, v, k, i, v)
+                exp += ["true" if k > 0 else "false", str(k) if k > 0 else "100"]
+            elif form == 'elseif':
+                src += "%s: int? = nil\nif false {\n  print 0\n} else if %s ?= pos(%d) {\n  print %s\n} else {\n  print \"none\"\n}\nprint (%s) or 100\n" % (v, v, k, v, v)
+                exp += ([str(k), str(k)] if k > 0 else ["none", "100"])
+            elif form == 'fn-block':
+                # inside a function: a local declared at the top of the body, `?=` in a nested block
+                src += ("h%d = fn(q: int) -> int {\n  %s: int? = nil\n  if q > 0 {\n    if %s ?= pos(q) {\n      print %s\n    }\n  }\n  return (%s) or 100\n}\nprint h%d(%d)\n"
+                        % (i, v, v, v, v, i, k))
+                exp += ([str(k), str(k)] if k > 0 else ["100"])
             else:
                 src += "n%d = %d\n%s: int? = nil\nwhile %s ?= pos(n%d) {\n  print %s\n  n%d = n%d - 1\n}\nprint %s == nil\n" % (i, k, v, v, i, v, i, i, v)
                 exp += [str(j) for j in range(k, 0, -1)] + ["true"]
